@@ -54,10 +54,21 @@ func (f *Frame) panicSite(cond, kind, desc, pos string) {
 			tf := s.topFrame
 			goal := "false"
 			text := "(no allocates_on_panic clause)"
-			if c.AllocPanic != nil {
-				bound := tf.evalExprView(*c.AllocPanic, s.plainView(tf.entryHeap), s.plainView(tf.entryHeap), nil).(S).T
-				goal = app("<=", app("-", s.hget(f.cur.heap, "$bytes", "Int"), "bytes0"), bound)
-				text = c.AllocPanic.Text
+			if len(c.AllocPanic) > 0 {
+				var gs []string
+				var ts []string
+				grown := app("-", s.hget(f.cur.heap, "$bytes", "Int"), "bytes0")
+				for _, ac := range c.AllocPanic {
+					bound := tf.evalExprView(ac.Bound, s.plainView(tf.entryHeap), s.plainView(tf.entryHeap), nil).(S).T
+					g := app("<=", grown, bound)
+					if ac.Cond != nil {
+						g = implies(tf.evalClause(*ac.Cond, tf.entryHeap, tf.entryHeap, nil), g)
+					}
+					gs = append(gs, g)
+					ts = append(ts, ac.Text)
+				}
+				goal = and(gs...)
+				text = strings.Join(ts, "; ")
 			}
 			s.addObl(&Obligation{Name: fmt.Sprintf("%s#alloc-panic(%s %s)", c.Key(), kind, desc), Kind: "alloc", Guard: f.cur.reach, Goal: implies(cond, goal), Pos: pos,
 				Clause: "ghost allocation counter at this panic point grew by at most: " + text})
@@ -107,7 +118,15 @@ func (f *Frame) instr(ins ssa.Instruction) {
 		elem := x.Type().Underlying().(*types.Pointer).Elem()
 		f.initObject(ref, elem)
 		if x.Heap {
-			f.chargeBytes(num(sizeOf(elem)))
+			// composite objects only: the cell go/ssa gives a captured local or parameter is not charged (the compiler captures
+			// variables that are not reassigned by value, and a scalar cell is a constant per call otherwise)
+			switch elem.Underlying().(type) {
+			case *types.Struct, *types.Array:
+				// the temporary array of a variadic call (append(s, x), f(a, b)) is an artefact of go/ssa, not an allocation
+				if x.Comment != "varargs" {
+					f.chargeBytes(num(sizeOf(elem)))
+				}
+			}
 		}
 		if nt, ok := elem.(*types.Named); ok && !f.dry {
 			if _, has := f.s.P.Contracts.Types[nt.Obj().Pkg().Name()+"."+nt.Obj().Name()]; has {
@@ -177,10 +196,20 @@ func (f *Frame) instr(ins ssa.Instruction) {
 		f.vals[x] = S{f.term(x.X), x.Type()}
 	case *ssa.MakeInterface:
 		f.vals[x] = f.makeInterface(f.val(x.X), x.X.Type(), x.Type())
-		if _, isPtr := x.X.Type().Underlying().(*types.Pointer); !isPtr {
-			if _, isIface := x.X.Type().Underlying().(*types.Interface); !isIface {
+		_, isConst := x.X.(*ssa.Const)
+		switch u := x.X.Type().Underlying().(type) {
+		case *types.Pointer, *types.Interface, *types.Map, *types.Chan, *types.Signature:
+			// pointer-shaped values are stored in the interface word itself
+		case *types.Basic:
+			if !isConst { // a boxed constant is static data
 				f.chargeBytes("16")
 			}
+		case *types.Struct:
+			if u.NumFields() != 0 {
+				f.chargeBytes(num(sizeOf(x.X.Type())))
+			}
+		default:
+			f.chargeBytes("16")
 		}
 	case *ssa.TypeAssert:
 		f.typeAssert(x)
@@ -555,6 +584,16 @@ func (f *Frame) makeInterface(v Val, from, to types.Type) Val {
 			}
 		case *types.Interface:
 			return S{f.asS(v, from).T, to}
+		case *types.Slice:
+			// only as the argument of a modelled library function (sort.Slice): the box remembers the slice
+			sl := f.asS(v, from).T
+			b := s.freshConst("boxedslice", "Any")
+			s.fact(eq(b, app("mk-any", tag, sliceField("s.ref", sl), str, "false", fl)))
+			if s.boxedSlices == nil {
+				s.boxedSlices = map[string]boxedSlice{}
+			}
+			s.boxedSlices[b] = boxedSlice{sl, u.Elem()}
+			return S{b, to}
 		default:
 			f.abort("boxing of %s into an interface is not modelled", from)
 		}
